@@ -67,7 +67,7 @@ pub fn streams(thorough: bool) -> Report {
     use std::sync::mpsc;
     use std::time::Duration;
     let mut r = Report::new(
-        "child processes (sh) writing O bytes 'o' to stdout and E bytes 'e' to stderr for O, E in {0, 1, 100, 70000, 300000} (up to ~5 pipe buffers) in 4 patterns (stderr first, stdout first, 20 alternating slices, both at once from two background jobs) and exiting with status 7, run through output_and_write_streams and spawn_and_write_streams with Vec writers: the call returns within the watchdog time (no deadlock), the returned output and the supplied writers each hold exactly the bytes of their stream, the exit status is passed on; non-trivial = runs where a stream exceeds one pipe buffer",
+        "child processes (sh) writing O bytes 'o' to stdout and E bytes 0xE9 (not valid UTF-8) to stderr for O, E in {0, 1, 100, 70000, 300000} (up to ~5 pipe buffers) in 4 patterns (stderr first, stdout first, 20 alternating slices, both at once from two background jobs) and exiting with status 7, run through output_and_write_streams and spawn_and_write_streams with Vec writers: the call returns within the watchdog time (no deadlock), the returned output and the supplied writers each hold exactly the bytes of their stream, the exit status is passed on; non-trivial = runs where a stream exceeds one pipe buffer",
         if thorough { "5 x 5 volumes x 4 patterns x 2 entry points, watchdog 12 s" } else { "5 x 5 volumes x 4 patterns (output_and_write_streams), large volumes also spawn_and_write_streams; watchdog 12 s" },
     );
     let vols = [0usize, 1, 100, 70_000, 300_000];
@@ -76,7 +76,7 @@ pub fn streams(thorough: bool) -> Report {
         if entry == 1 && !thorough && o.max(e) < 70_000 { continue; }
         if blocked >= 2 { continue; }   // two blocked runs are reported; every further one would only cost another watchdog period
         r.evaluations += 1; if o.max(e) >= 70_000 { r.nontrivial += 1; }
-        let emit = |n: usize, c: char, fd: &str| if n == 0 { String::from(":") } else { format!("head -c {n} /dev/zero | tr '\\0' {c} {fd}") };
+        let emit = |n: usize, c: char, fd: &str| if n == 0 { String::from(":") } else { format!("head -c {n} /dev/zero | tr '\\0' '{}' {fd}", if c == 'e' { "\\351".to_string() } else { c.to_string() }) };
         let script = match pattern {
             0 => format!("{}; {}; exit 7", emit(e, 'e', ">&2"), emit(o, 'o', "")),
             1 => format!("{}; {}; exit 7", emit(o, 'o', ""), emit(e, 'e', ">&2")),
@@ -103,8 +103,8 @@ pub fn streams(thorough: bool) -> Report {
             }
             Ok((Err(e), _, _)) => r.violation("stream_runs", "running the child failed", input, "Ok".into(), e),
             Ok((Ok((code, captured)), wo, we)) => {
-                let (wanto, wante) = (vec![b'o'; o], vec![b'e'; e]);
-                if wo != wanto || we != wante { r.violation("stream_complete", "the supplied writers receive every byte of their stream", input.clone(), format!("{o} x 'o' / {e} x 'e'"), format!("stdout writer {} bytes ({} 'o'), stderr writer {} bytes ({} 'e')", wo.len(), wo.iter().filter(|b| **b == b'o').count(), we.len(), we.iter().filter(|b| **b == b'e').count())); }
+                let (wanto, wante) = (vec![b'o'; o], vec![0xE9u8; e]);   // stderr carries bytes that are not valid UTF-8
+                if wo != wanto || we != wante { r.violation("stream_complete", "the supplied writers receive every byte of their stream", input.clone(), format!("{o} x 'o' / {e} x 'e'"), format!("stdout writer {} bytes ({} 'o'), stderr writer {} bytes ({} 'e')", wo.len(), wo.iter().filter(|b| **b == b'o').count(), we.len(), we.iter().filter(|b| **b == 0xE9).count())); }
                 if let Some((so, se)) = captured { if so != wanto || se != wante { r.violation("stream_complete", "the returned output holds every byte of each stream", input.clone(), format!("{o} / {e} bytes"), format!("{} / {} bytes", so.len(), se.len())); } }
                 if code != Some(7) { r.violation("stream_status", "the child's exit status is passed on", input, "Some(7)".into(), format!("{code:?}")); }
             }
